@@ -50,14 +50,14 @@ def dtf(f):
     return DT[f]
 
 
-def run_rows(r):
+def run_rows(r, big=0):
     """Rows of run r (an int): values carry the run number."""
-    n = 2 + r % 3
+    n = big or 2 + r % 3
     return [(10 * i + r, 10 * i + r + 3, 1000 * r + i) for i in range(n)]
 
 
 def plugins():
-    @strax.takes_config(strax.Option("bad_run", default="", track=False))
+    @strax.takes_config(strax.Option("bad_run", default="", track=False), strax.Option("big_rows", default=0, track=True))
     class Src(strax.Plugin):
         provides = "ev"
         depends_on = ()
@@ -74,12 +74,15 @@ def plugins():
         def compute(self, chunk_i):
             if self.run_id in self.config["bad_run"].split(","):
                 raise ValueError(f"run {self.run_id} is broken")
-            rows = run_rows(int(self.run_id))
+            rows = run_rows(int(self.run_id), self.config["big_rows"])
             a = np.zeros(len(rows), dtype=dtf("v0"))
             a["time"] = [x[0] for x in rows]
             a["endtime"] = [x[1] for x in rows]
             a["v0"] = [x[2] for x in rows]
-            lo, hi = (0, 15) if chunk_i == 0 else (15, 100)
+            if self.config["big_rows"]:
+                # incompressible payload: chunk files of tens of kB
+                a["v0"] = a["v0"] * 2654435761 % (2 ** 40)
+            lo, hi = (0, 15) if chunk_i == 0 else (15, 100 + 10 * len(rows))
             return self.chunk(start=lo, end=hi, data=a[(a["time"] >= lo) & (a["endtime"] <= hi)])
 
     def row(name, f, k):
@@ -90,6 +93,7 @@ def plugins():
             provides = name
             depends_on = ("ev",)
             rechunk_on_save = False
+            compressor = "zstd" if name == "pa" else "blosc"
 
             def infer_dtype(self):
                 if self.config["slow_infer"]:
@@ -109,9 +113,10 @@ def plugins():
     return [Src, row("pa", "v1", 3), row("pb", "v2", 7)]
 
 
-def context(d, bad_run="", slow_infer=0.0):
+def context(d, bad_run="", slow_infer=0.0, big_rows=0):
     return strax.Context(storage=[strax.DataDirectory(d)] if d else [], register=plugins(),
-                         config={"bad_run": bad_run, "slow_infer": slow_infer}, processors=["single_thread"], timeout=60)
+                         config={"bad_run": bad_run, "slow_infer": slow_infer, "big_rows": big_rows}, processors=["single_thread"],
+                         timeout=60)
 
 
 class YieldInjector:
@@ -174,8 +179,8 @@ class YieldInjector:
         mon.free_tool_id(self.TOOL)
 
 
-def expected(runs, targets, bad, ignore):
-    st = context(None)
+def expected(runs, targets, bad, ignore, big_rows=0):
+    st = context(None, big_rows=big_rows)
     out = []
     for r in sorted(runs):
         if r in bad.split(","):
@@ -201,6 +206,8 @@ def gen_cfg(seed, idx):
     return {"runs": runs, "workers": rng.choice([1, 1, 1, 2, 2, 3, 4, 8]), "targets": rng.choice([["pa"], ["pa"], ["pa", "pb"], ["ev", "pb"]]),
             "warm": rng.random() < 0.5, "storage": rng.random() < 0.5, "api": rng.choice(["get_array", "get_array", "get_df", "make"]),
             "bad": bad, "ignore": bool(bad) and rng.random() < 0.6, "slow_infer": rng.choice([0.0, 0.0, 0.001, 0.002]),
+            # everything stored beforehand with chunk files of realistic size: the parallel call only loads
+            "prestored_big": rng.random() < 0.12,
             "mode": rng.choice(["switch", "switch", "yield", "default"]), "mode_seed": rng.randint(0, 10 ** 6)}
 
 
@@ -217,13 +224,22 @@ def run_cfg(cfg):
 
     d = hrun.mktemp("c15-") if cfg["storage"] else None
     try:
-        st = context(d, cfg["bad"], cfg.get("slow_infer", 0.0))
+        big = 4000 if cfg.get("prestored_big") and d else 0
+        st = context(d, cfg["bad"], cfg.get("slow_infer", 0.0), big)
+        if big:
+            pre = context(d, cfg["bad"], 0.0, big)
+            with common.quiet():
+                for r in cfg["runs"]:
+                    if r not in cfg["bad"].split(","):
+                        for t in cfg["targets"]:
+                            pre.make(r, t, progress_bar=False)
+            cnt["prestored_big_calls"] = 1
         tg = tuple(cfg["targets"]) if len(cfg["targets"]) > 1 else cfg["targets"][0]
         if cfg["warm"]:
             with common.quiet():
                 good = [r for r in cfg["runs"] if r not in cfg["bad"].split(",")]
                 st.get_array(good[0], tg, progress_bar=False)
-        want = expected(cfg["runs"], tg, cfg["bad"], cfg["ignore"]) if cfg["api"] != "make" else None
+        want = expected(cfg["runs"], tg, cfg["bad"], cfg["ignore"], big) if cfg["api"] != "make" else None
         old = sys.getswitchinterval()
         exc = None
         res = None
@@ -280,7 +296,7 @@ def run_cfg(cfg):
                 if not ok:
                     add("rows", f"parallel result differs from sequential single-run calls: {got if cfg['api'] == 'get_df' else got.tolist()} vs {None if want is None else want.tolist()}")
             elif cfg["storage"]:
-                fresh = context(d)
+                fresh = context(d, big_rows=big)
                 for r in cfg["runs"]:
                     if r in cfg["bad"].split(","):
                         continue
@@ -292,7 +308,7 @@ def run_cfg(cfg):
         temps = [k for k in st._plugin_class_registry if k.startswith("_temp")]
         if temps:
             add("temp-plugin-left", f"temporary plugins left in the registry: {temps}")
-        fresh = context(None, cfg["bad"])
+        fresh = context(None, cfg["bad"], 0.0, big)
         for t in ("ev", "pa", "pb"):
             if str(st.key_for("0", t)) != str(fresh.key_for("0", t)):
                 add("key-drift", f"key_for({t}) differs from a fresh context after the parallel call")
